@@ -280,6 +280,7 @@ impl Engine for CrashEngine {
         let mut fp: u64 = 0xcbf29ce484222325;
         let mut nontrivial = 0u64;
 
+        let mut seen: Vec<(usize, Vec<u8>, String, String, u64)> = Vec::new();
         for idx in 0..n {
             let d = gen_delivery(t, c);
             let name = ENTRIES[d.entry].name;
@@ -295,8 +296,11 @@ impl Engine for CrashEngine {
             let reply = w.deliver(d.entry as u32, &d.bytes, WATCHDOG);
             let outcome_class: String;
             let verdict = match reply {
-                Reply::Outcome { class, canary } => {
+                Reply::Outcome { class, canary, digest } => {
                     outcome_class = class.clone();
+                    if !class.starts_with("panic:") {
+                        seen.push((d.entry, d.bytes.clone(), class.clone(), digest.clone(), idx));
+                    }
                     if canary != "canary_skip" {
                         out.bump("canary.batteries");
                     }
@@ -410,7 +414,7 @@ impl Engine for CrashEngine {
                         json!("timeout x2")
                     } else {
                         match isolated(d.entry as u32, &d.bytes) {
-                            Ok(Reply::Outcome { class, canary }) => json!({"outcome": class, "canary": canary}),
+                            Ok(Reply::Outcome { class, canary, .. }) => json!({"outcome": class, "canary": canary}),
                             Ok(Reply::Died { signal, code }) => json!({"died": {"signal": signal, "exit_code": code}}),
                             Ok(Reply::Timeout) => json!("timeout"),
                             Ok(Reply::Protocol(e)) => json!({"protocol": e}),
@@ -435,6 +439,40 @@ impl Engine for CrashEngine {
             }
         }
         w.kill();
+        // history independence: a few deliveries of this session are repeated alone in a fresh
+        // process; the complete outcome (not only its class) must be the same as it was after
+        // everything the long-lived worker had processed before
+        if out.violation.is_none() && !seen.is_empty() {
+            let picks = 1 + t.below(2) as usize;
+            for _ in 0..picks {
+                let (entry, bytes, class, digest, at) = seen[t.index(seen.len())].clone();
+                let name = ENTRIES[entry].name;
+                out.bump("replay.fresh-process");
+                match isolated(entry as u32, &bytes) {
+                    Ok(Reply::Outcome { class: c2, digest: d2, .. }) => {
+                        if c2 != class || d2 != digest {
+                            let signature = format!("crash/history-dependence.{name}");
+                            if known.is_known(PROP, &signature).is_some() {
+                                out.known_hits.push(format!("{PROP}:{signature}"));
+                                continue;
+                            }
+                            let dd = Delivery { entry, seed: 0, kinds: vec![], bytes: bytes.clone() };
+                            out.violation = Some(Violation {
+                                property: PROP.into(),
+                                signature,
+                                detail: detail(c, &dd, at, "history-dependence", "the same input gives a different outcome in a fresh process than it gave in the long-lived worker", json!({"in_session": {"outcome": class, "digest": digest}, "fresh_process": {"outcome": c2, "digest": d2}})),
+                            });
+                            break;
+                        }
+                    }
+                    Ok(_) => {}
+                    Err(e) => {
+                        out.harness_error = Some(e);
+                        return out;
+                    }
+                }
+            }
+        }
         out.add("nontrivial", nontrivial);
         out.nontrivial = nontrivial > 0;
         out.fingerprint = fp;
